@@ -48,6 +48,8 @@ pub enum Placement {
     ParentDir,
     /// inner links in the sub-directory named after another key
     OtherKeyDir(KeySpec),
+    /// inner links in a sub-directory with this (wrong) name
+    Named(String),
 }
 
 #[derive(Clone, Debug, Serialize, Deserialize, PartialEq, Eq)]
@@ -189,6 +191,7 @@ pub fn write_world(w: &World, dir: &Path) -> MatInfo {
                     Placement::Proper => dir.join(format!("{}.{}", f.step, prefix8(&f.filed_under))),
                     Placement::ParentDir => dir.to_path_buf(),
                     Placement::OtherKeyDir(k) => dir.join(format!("{}.{}", f.step, prefix8(k))),
+                    Placement::Named(n) => dir.join(n),
                 };
                 let inner = write_world(world, &sub);
                 let _ = std::fs::write(&path, &inner.layout_text);
